@@ -119,13 +119,14 @@ def exact(vs):
 
 
 def any_err(thunk, fmt=str) -> str:
+    """`ok <formatted value>` / `err`.  The formatter runs INSIDE the guard: an exception raised while observing the result
+    (tolist(), .data, iteration …) is an observable outcome of the implementation, not a harness failure."""
     try:
-        v = thunk()
+        return "ok " + fmt(thunk())
     except RecursionError:
         return "err"
     except Exception:                       # noqa: BLE001 — the property names no exception class
         return "err"
-    return "ok " + fmt(v)
 
 
 def dtype_spec(dt: str):
@@ -234,6 +235,18 @@ def fmt_arg(s: str):
 
 # ------------------------------------------------------------------------------------------------ execute
 def execute(line: str):
+    """Never raises for something the implementation does: an exception in a follow-up observation (second call, tolist,
+    byteswap of the result …) is reported through extra["observe_exception"] and flagged by the oracle."""
+    try:
+        return _execute(line)
+    except Exception as e:                  # noqa: BLE001
+        import traceback
+        tb = traceback.extract_tb(e.__traceback__)
+        where = next((f"{fr.name}:{fr.lineno}" for fr in reversed(tb) if fr.filename.endswith("C18.py")), "?")
+        return "err", {"observe_exception": f"{type(e).__name__}: {str(e)[:120]} (while observing, at {where})"}
+
+
+def _execute(line: str):
     # every case starts on cold caches (DESIGN §3B): a case is self-contained, so a replay in a fresh process sees what
     # the run saw, and state left behind by one case (e.g. a poisoned token cache) is charged to the case that caused it
     clear_caches()
@@ -405,6 +418,17 @@ def execute(line: str):
         out = any_err(lambda: bitstring.Array(dt, mk("BitArray", bits)).tolist(), lambda v: canon_list(v, [n] * max(1, len(v))))
         extra["exact"] = any_err(lambda: bitstring.Array(dt, mk("BitArray", bits)).tolist(), lambda v: repr(exact(v)))
         extra["iter"] = any_err(lambda: list(bitstring.Array(dt, mk("BitArray", bits))), lambda v: repr(exact(v)))
+
+        def by_index():
+            a = bitstring.Array(dt, mk("BitArray", bits))
+            return [a[i] for i in range(len(a))] + ([a[-1]] if len(a) else [])
+        extra["index"] = any_err(by_index, lambda v: repr(exact(v)))
+        extra["equals_self"] = any_err(lambda: bitstring.Array(dt, mk("BitArray", bits)).equals(bitstring.Array(dt, mk("BitArray", bits))), str)
+        if sp and len(dt) == 2 and dt[0] in "=@" and dt[1] in TYPECODES and array.array(dt[1]).itemsize == n and len(bits) % (8 * n) == 0:
+            src = array.array(dt[1])
+            src.frombytes(bytes_of_bits(bits))               # the reference values, by the array module itself
+            if not any(v != v for v in src):
+                extra["equals_array"] = any_err(lambda: bitstring.Array(dt, mk("BitArray", bits)).equals(src), str)
         return out, extra
     if op == "aswap":
         dt, bits = f[2], unwire(f[3])
@@ -529,6 +553,8 @@ def _struct_ref(thunk):
 
 
 def oracle(line: str, out: str, extra: dict):
+    if extra.get("observe_exception"):
+        return "an observation of the result raised " + extra["observe_exception"]
     f = line.split(SEP)
     op = f[1]
     if op == "pack":
@@ -819,6 +845,12 @@ def oracle(line: str, out: str, extra: dict):
             return f"Array({dt!r}).tolist() values {extra['exact']} differ from {exact(ref)}"
         if extra["iter"] != extra["exact"]:
             return f"iterating gives {extra['iter']}, tolist gives {extra['exact']}"
+        if extra["index"] != "ok " + repr(exact(ref + ref[-1:])):
+            return f"indexing gives {extra['index']}, struct gives {exact(ref + ref[-1:])}"
+        if extra["equals_self"] != "ok True":
+            return f"Array({dt!r}, data).equals(an equal Array) is {extra['equals_self']}"
+        if extra.get("equals_array", "ok True") != "ok True":
+            return f"Array({dt!r}, data).equals(array.array({dt[1]!r}) of the same bytes) is {extra['equals_array']}"
         return None
     if op == "aswap":
         dt, bits = f[2], unwire(f[3])
@@ -1202,6 +1234,9 @@ def gen_array(rng, big):
             bad = (_int_outside(k, n) if n else [1 << bl, -(1 << bl)])
             for v in bad:
                 yield SEP.join(["C18", "arr", dt, ",".join([str(lim[0]), str(v)])])
+        if n is not None:                                   # odd and even item counts, whole items
+            for cnt in (1, 2, 3, 4, 5):
+                yield SEP.join(["C18", "alist", dt, wire(rand_bits(rng, cnt * bl))])
         for _ in range(16 if big else 5):
             cnt = rng.randint(0, 4)
             bits = rand_bits(rng, cnt * bl + rng.choice([0, 0, 1, 3, 7, bl - 1]))
